@@ -42,6 +42,15 @@ def _client(args):
                 d["cipher"] != c or d["mac"] != m or d["auth_uid"] != uid or d["ttl"] != (ttl or 300):
             problems.append("client %d (uid %d) got a reply that is not its own: error %d uid %d gid %d cipher %d len %d payload-head %r"
                             % (idx, uid, d["error_num"], d["cred_uid"], d["cred_gid"], d["cipher"], d["data_len"], d["data"][:24]))
+        if idx % 12 == 0 and r % 2 == 0:
+            # this client's user is listed in group 700 by EVERY version of the group database that the SIGHUP loop writes,
+            # so a credential restricted to GID 700 is his whatever refresh of the group map is in progress
+            e7, st = rig.encode(sock, uid=uid, gid=gid, auth_gid=700, data=payload)
+            d7, st = rig.decode(sock, e7["data"], uid=uid, gid=gid) if e7 and e7["error_num"] == 0 else (None, st)
+            if d7 is None or d7["error_num"] != 0 or d7["data"] != payload:
+                problems.append("client %d (uid %d, a member of group 700 in every version of the group database) was refused a "
+                                "credential restricted to GID 700 while the group map was being refreshed: %s"
+                                % (idx, uid, d7 and (d7["error_num"], d7["error_str"])))
         # an unauthorized peek at somebody else's restricted credential must fail with MY ids in the message
         d2, st = rig.decode(sock, e["data"], uid=uid + 1, gid=gid)
         if d2 is None or d2["error_num"] != 18 or ("UID=%d" % (uid + 1)) not in d2["error_str"] or d2["data_len"] != 0:
@@ -117,10 +126,11 @@ def run_races(ctx, exe, label, nthreads, nclients, rounds):
 
 def run_load(ctx, exe, label, nthreads, nclients, rounds, sighup):
     db = {"groups": [(700, ["u%d" % i for i in range(0, 40, 3)]), (701, [])], "users": [("u%d" % i, 1000 + i) for i in range(40)]}
-    d = rig.Daemon(ctx, exe, tag=label, nthreads=nthreads, nss_db=db)
+    # a slow directory service (10 ms per group entry): a refresh of the group map is in progress most of the time
+    d = rig.Daemon(ctx, exe, tag=label, nthreads=nthreads, nss_db=db, env={"VERIF_NSS_DELAY_US": "10000"} if sighup else None)
     if not d.start(wait=20):
         return ["daemon (%s) does not start" % label], ""
-    time.sleep(0.3)
+    time.sleep(0.5)
     shared, _ = rig.encode(d.sock, uid=1, gid=1, data=b"shared")
     pool = multiprocessing.Pool(nclients)
     problems = []
